@@ -223,18 +223,37 @@ def r3_truth_tables(rep, facts):
     # leaf guard: error <=> is_dotted == path.is_empty
     for d in (ST + 'on_keyval', P + 'inline_table::table_from_pairs'):
         b = facts.body(d)
-        let = [n for n in walk(b['body']) if n.get('k') == 'let' and n['pat'].get('k') == 'p_bind' and n['pat']['name'].startswith('mixed_table_types')]
+        # the `if` that rejects the pair before the entry is looked at, with its boolean locals replaced by what they stand for
+        from .shared import local_origins
+        import copy
+        orig = local_origins(b['body'])
+
+        def expand(n, depth=0):
+            if isinstance(n, list):
+                return [expand(x, depth) for x in n]
+            if not isinstance(n, dict):
+                return n
+            if n.get('k') == 'path' and n.get('res') == 'Local' and (n.get('t') or '').strip() == 'bool' and n.get('path') in orig and depth < 4:
+                return expand(copy.deepcopy(orig[n['path']]), depth + 1)
+            return {k: expand(v, depth) if isinstance(v, (dict, list)) else v for k, v in n.items()}
         ok = False
-        detail = 'mixed_table_types not found'
-        if let:
+        used = False
+        detail = 'no rejecting `if` over is_dotted() found'
+        for n in walk(b['body']):
+            if not (n.get('k') == 'if' and arm_returns_err(n['then'])):
+                continue
+            cond = expand(n['cond'])
+            if not any(atoms_flags(x) == 'dotted' for x in walk(cond)):
+                continue
+            used = True
             try:
-                names, table = truth_table(ev, let[0]['init'], atoms_flags)
+                names, table = truth_table(ev, cond, atoms_flags)
                 detail = f'atoms {names}: {table}'
                 if names == ['dotted', 'path.is_empty']:
                     ok = all(v == (dt == pe) for (dt, pe), v in table.items())
             except Unanalysable as e:
                 detail = str(e)
-        used = any(n.get('k') == 'if' and arm_returns_err(n['then']) and any((x.get('path') or '').startswith('mixed_table_types') for x in walk(n['cond'])) for n in walk(b['body']))
+            break
         rep.check(R, d.replace(P, '') + '|leaf-guard', ok and used, 'error <=> table.is_dotted() == path.is_empty() (4 cells)',
                   f'leaf guard of `{d.replace(P, "")}` changed: {detail}', facts.loc(b))
     # start_table: reuse <=> Item::Table(t) if implicit && !dotted
@@ -272,18 +291,36 @@ def r3_truth_tables(rep, facts):
     rep.check(R, 'state::ParseState::finalize_table|root-empty', asserted, 'assert!(root.is_empty()) before the root swap', 'the root swap is no longer guarded by root.is_empty()', facts.loc(b))
     # array of tables -> last element
     b = facts.body(ST + 'descend_path')
-    okl = False
-    for n in walk(b['body']):
-        if n.get('k') == 'let' and n['pat'].get('k') == 'p_bind' and n['pat']['name'].startswith('index'):
-            i = peel(n['init'])
-            if i.get('k') == 'binary' and i.get('op') == '-' and peel(i['a']).get('name') == 'len':
-                try:
-                    okl = ev.integer(i['b']) == 1
-                except Unanalysable:
-                    okl = False
-    gm = any(n.get('k') == 'mcall' and n.get('name') == 'get_mut' and (peel(n['args'][0]).get('path') or '').startswith('index') for n in walk(b['body']))
-    rep.check(R, 'state::ParseState::descend_path|array-of-tables-last', okl and gm, 'array.get_mut(array.len() - 1)',
-              'a path through an array of tables is no longer resolved to its last element', facts.loc(b))
+    from .shared import local_origins
+    orig = local_origins(b['body'])
+    arm = [x for m in walk(b['body']) if m.get('k') == 'match' for x in m.get('arms', []) if pat_mentions(x['pat'], 'Item::ArrayOfTables')]
+    sel = []
+    detail = 'arm for Item::ArrayOfTables not found'
+    if len(arm) == 1:
+        for n in walk(arm[0]['body']):
+            if n.get('k') != 'mcall':
+                continue
+            nm = n.get('name')
+            if nm in ('last_mut', 'last', 'next_back'):
+                sel.append(True)
+            elif nm in ('first', 'first_mut', 'next', 'nth', 'swap_remove', 'pop', 'remove'):
+                sel.append(False)
+            elif nm in ('get_mut', 'get', 'index_mut', 'index') and n.get('args'):
+                i = peel(n['args'][0])
+                hops = 0
+                while i.get('k') == 'path' and i.get('res') == 'Local' and i.get('path') in orig and hops < 4:
+                    i = peel(orig[i['path']])
+                    hops += 1
+                good = False
+                if i.get('k') == 'binary' and i.get('op') == '-' and peel(i['a']).get('name') == 'len':
+                    try:
+                        good = ev.integer(i['b']) == 1
+                    except Unanalysable:
+                        good = False
+                sel.append(good)
+        detail = f'{len(sel)} element selections, last-element: {sel}'
+    rep.check(R, 'state::ParseState::descend_path|array-of-tables-last', len(sel) == 1 and sel[0], 'the arm for an array of tables continues in its last element (get_mut(len - 1) / last_mut())',
+              f'a path through an array of tables is no longer resolved to its last element ({detail})', facts.loc(b))
     # new tables: flags by walk kind
     for d, want in ((ST + 'descend_path', {'set_implicit': True, 'set_dotted': 'dotted'}), (P + 'inline_table::descend_path', {'set_implicit': 'dotted', 'set_dotted': 'dotted'})):
         b = facts.body(d)
